@@ -95,30 +95,30 @@ type World struct {
 	Routers map[string]*RouterInst
 	Targets map[string]*FakeTarget
 
-	mu        sync.Mutex
-	Responses []*Response
-	Cmds      []*CmdResult
-	Seen      map[string][]TargetSeen
-	Crashes   []CrashCopy
+	mu           sync.Mutex
+	Responses    []*Response
+	Cmds         []*CmdResult
+	Seen         map[string][]TargetSeen
+	Crashes      []CrashCopy
 	CrashResults []crashResult
-	Obs       []*Observation
-	CertProbes []CertProbe
-	acme      *acmeFake
-	certSeen  map[string]bool
-	Logs      []map[string]any
-	tids      map[*server.Target]string
-	lbids     map[*server.LoadBalancer]string
-	hcs       []*server.HealthCheck
-	hcids     map[*server.HealthCheck]string
-	ords      map[string]int
-	cancels   []context.CancelFunc
-	probeTr   *http.Transport
-	routerOf  map[*server.Router]string
-	CrashOn   bool // copy the state file at snapshot.* steps
-	certDir   string
-	dead      atomic.Bool
-	pointN    map[string]int
-	waiters   map[string][]*pointWaiter
+	Obs          []*Observation
+	CertProbes   []CertProbe
+	acme         *acmeFake
+	certSeen     map[string]bool
+	Logs         []map[string]any
+	tids         map[*server.Target]string
+	lbids        map[*server.LoadBalancer]string
+	hcs          []*server.HealthCheck
+	hcids        map[*server.HealthCheck]string
+	ords         map[string]int
+	cancels      []context.CancelFunc
+	probeTr      *http.Transport
+	routerOf     map[*server.Router]string
+	CrashOn      bool // copy the state file at snapshot.* steps
+	certDir      string
+	dead         atomic.Bool
+	pointN       map[string]int
+	waiters      map[string][]*pointWaiter
 }
 
 type pointWaiter struct {
@@ -274,7 +274,12 @@ func NewWorld(sc *Scenario, s *Sim, h *History) *World {
 		w.acme = &acmeFake{w: w}
 		w.Net.Register("acme.test:80", w.acme)
 	}
-	s.AddSection("snapshot.lock", "snapshot.unlocked")
+	if AutoYield {
+		installAutoHooks(s) // real lock ownership is tracked; no hand-modelled section needed
+	} else {
+		s.AddSection("snapshot.lock", "snapshot.unlocked", false)
+		s.AddSection("deploy.lock", "deploy.unlocked", true) // one deploy lock per service name
+	}
 	for _, ts := range sc.Targets {
 		w.AddTarget(ts)
 	}
@@ -473,7 +478,7 @@ func (h *captureHandler) Handle(_ context.Context, r slog.Record) error {
 	return nil
 }
 func (h *captureHandler) WithAttrs(a []slog.Attr) slog.Handler { return h }
-func (h *captureHandler) WithGroup(string) slog.Handler      { return h }
+func (h *captureHandler) WithGroup(string) slog.Handler        { return h }
 
 // ---- actors ---------------------------------------------------------------
 
@@ -514,6 +519,9 @@ func (w *World) execOp(actor string, idx int, op *Op) {
 	}
 	switch op.Kind {
 	case "sleep":
+	case "census":
+		// what is installed right now (list + state file), without any request
+		w.Observe(actor, idx, op, nil, 0)
 	case "certs":
 		w.probeCerts(actor, idx, op)
 	case "observe":
@@ -579,8 +587,8 @@ func (w *World) svcOptions(op *Op) server.ServiceOptions {
 func (w *World) tgtOptions(op *Op) server.TargetOptions {
 	hc := w.Sc.HC
 	o := server.TargetOptions{
-		HealthCheckConfig: server.HealthCheckConfig{Path: hc.Path, Interval: w.S.D(hc.Interval), Timeout: w.S.D(hc.Timeout)},
-		ResponseTimeout:   w.S.D(server.DefaultTargetTimeout),
+		HealthCheckConfig:   server.HealthCheckConfig{Path: hc.Path, Interval: w.S.D(hc.Interval), Timeout: w.S.D(hc.Timeout)},
+		ResponseTimeout:     w.S.D(server.DefaultTargetTimeout),
 		MaxMemoryBufferSize: server.DefaultMaxMemoryBufferSize,
 	}
 	if o.HealthCheckConfig.Path == "" {
@@ -685,13 +693,13 @@ func (w *World) doCommand(actor string, idx int, op *Op) {
 // ---- direct-mode requests --------------------------------------------------
 
 type recorder struct {
-	w        *World
-	resp     *Response
-	hdr      http.Header
-	wrote    bool
-	body     bytes.Buffer
-	hijacked bool
-	abort    time.Duration
+	w          *World
+	resp       *Response
+	hdr        http.Header
+	wrote      bool
+	body       bytes.Buffer
+	hijacked   bool
+	abort      time.Duration
 	clientDone chan struct{}
 }
 
@@ -1066,21 +1074,21 @@ func (w *World) ResponseByID(id string) *Response {
 
 // ParsedState parses a state file into a canonical, order-independent form.
 type SvcState struct {
-	Name     string   `json:"name"`
-	Hosts    []string `json:"hosts"`
-	Paths    []string `json:"paths"`
-	Active   []string `json:"active"`
-	Rollout  []string `json:"rollout"`
-	Pause    int      `json:"pause"`
-	StopMsg  string   `json:"stop_msg"`
+	Name      string        `json:"name"`
+	Hosts     []string      `json:"hosts"`
+	Paths     []string      `json:"paths"`
+	Active    []string      `json:"active"`
+	Rollout   []string      `json:"rollout"`
+	Pause     int           `json:"pause"`
+	StopMsg   string        `json:"stop_msg"`
 	FailAfter time.Duration `json:"fail_after"`
-	HasSplit bool     `json:"has_split"`
-	Percent  int      `json:"percent"`
-	Allow    []string `json:"allow"`
-	TLS      bool     `json:"tls"`
-	Strip    bool     `json:"strip"`
-	Opts     string   `json:"-"` // raw options JSON (all service options)
-	TOpts    string   `json:"-"` // raw target options JSON
+	HasSplit  bool          `json:"has_split"`
+	Percent   int           `json:"percent"`
+	Allow     []string      `json:"allow"`
+	TLS       bool          `json:"tls"`
+	Strip     bool          `json:"strip"`
+	Opts      string        `json:"-"` // raw options JSON (all service options)
+	TOpts     string        `json:"-"` // raw target options JSON
 }
 
 func ParseState(b []byte) ([]SvcState, error) {
